@@ -42,6 +42,10 @@ var c19Paths = []string{
 	`$[?(@.a == @.b)]`,         // two current nodes
 	`$.a.b[0]]`,                // trailing garbage
 	`$[?($.a == 1 && @.b)]`,    // nested parameters (action stack save/load)
+	`[?(@.a)].a`,               // leading $ omitted, filter first (nothing to save on the action stack)
+	`a.b`,                      // leading $ omitted, bare name
+	`$.b[?(@[99999999999999999999] == 1)]`, // failure inside a filter parameter with an outer path
+	`$.b[?(@.a.zz() == 1)]`,    // unknown function inside a filter parameter with an outer path
 }
 
 // config kinds: 0 none, 1 {f}, 2 {g}, 3 {f' = same name, other behaviour}, 4 accessor only,
@@ -173,6 +177,131 @@ func c19Apply(s *c19State, op int) (outcome, refKey string) {
 	return "ok " + c19Fingerprint(s.funcs[i]), "stored:" + s.prints[i]
 }
 
+// c19Replay executes an operation log (with -1 history markers) and returns the outcome of its
+// last operation.
+func c19Replay(seq []int) string {
+	var s *c19State
+	last := ""
+	for _, op := range seq {
+		if op < 0 || s == nil {
+			s = newC19State()
+			if op < 0 {
+				continue
+			}
+		}
+		last, _ = c19Apply(s, op)
+	}
+	return last
+}
+
+// C19TryMain: subprocess that replays a log read from stdin in a fresh process and exits 3 if
+// the last outcome differs from the expected one.
+func C19TryMain(args []string) int {
+	sched.Install()
+	var in struct {
+		Log      []int  `json:"log"`
+		Expected string `json:"expected"`
+	}
+	if err := json.NewDecoder(os.Stdin).Decode(&in); err != nil {
+		return 2
+	}
+	if got := c19Replay(in.Log); got != in.Expected {
+		fmt.Print(got)
+		return 3
+	}
+	return 0
+}
+
+func c19Try(seq []int, expected string) bool {
+	b, _ := json.Marshal(map[string]interface{}{"log": seq, "expected": expected})
+	cmd := exec.Command(os.Args[0], "-c19try")
+	cmd.Stdin = strings.NewReader(string(b))
+	err := cmd.Run()
+	if ee, ok := err.(*exec.ExitError); ok {
+		return ee.ExitCode() == 3
+	}
+	return false
+}
+
+// minimise reduces the process's operation log (which ends with the mismatching operation)
+// to a short sequence that still reproduces the mismatch in a FRESH process: first the
+// shortest suffix (whole histories, doubling), then delta debugging over the histories and
+// over the operations of the remaining ones. Every candidate is executed in a fresh process.
+func (j *c19Job) minimise(expected string) []int {
+	log := j.oplog
+	// split into histories
+	var hists [][]int
+	for _, op := range log {
+		if op < 0 {
+			hists = append(hists, nil)
+			continue
+		}
+		if len(hists) == 0 {
+			hists = append(hists, nil)
+		}
+		hists[len(hists)-1] = append(hists[len(hists)-1], op)
+	}
+	join := func(hs [][]int) []int {
+		var out []int
+		for _, h := range hs {
+			if len(h) == 0 {
+				continue
+			}
+			out = append(out, -1)
+			out = append(out, h...)
+		}
+		return out
+	}
+	budget := 120
+	try := func(hs [][]int) bool {
+		if budget <= 0 {
+			return false
+		}
+		budget--
+		return c19Try(join(hs), expected)
+	}
+	// 1. shortest reproducing suffix
+	n := len(hists)
+	k := 1
+	for ; k < n; k *= 2 {
+		if try(hists[n-k:]) {
+			break
+		}
+	}
+	if k > n {
+		k = n
+	}
+	cur := append([][]int{}, hists[n-min(k, n):]...)
+	if !try(cur) {
+		return join(cur) // not reproducible in a fresh process even with the whole log
+	}
+	// 2. delta debugging over whole histories (the last one is kept)
+	for chunk := len(cur) / 2; chunk >= 1; chunk /= 2 {
+		for i := 0; i+chunk < len(cur); {
+			cand := append(append([][]int{}, cur[:i]...), cur[i+chunk:]...)
+			if try(cand) {
+				cur = cand
+			} else {
+				i += chunk
+			}
+		}
+	}
+	// 3. drop single operations inside the remaining earlier histories
+	for hi := 0; hi < len(cur)-1; hi++ {
+		for oi := 0; oi < len(cur[hi]); {
+			h := append(append([]int{}, cur[hi][:oi]...), cur[hi][oi+1:]...)
+			cand := append([][]int{}, cur...)
+			cand[hi] = h
+			if try(cand) {
+				cur = cand
+			} else {
+				oi++
+			}
+		}
+	}
+	return join(cur)
+}
+
 // c19References computes, in one fresh subprocess per (path, config kind), the outcome of that
 // Parse performed first.
 func c19References() (map[string]string, error) {
@@ -209,10 +338,16 @@ type c19Job struct {
 	// (histories run back to back; a leak may need them to manifest)
 	recent  []int
 	prelude []int
+	// oplog: every operation this process executed, with -1 marking the start of each history
+	// (fresh harness-side state). A mismatch that needs more than its own history to manifest
+	// is reduced to a replayable sequence by searching this log (see minimise).
+	oplog    []int
+	reported map[string]int
 }
 
 func (j *c19Job) beginHistory() {
 	j.prelude = append([]int{}, j.recent...)
+	j.oplog = append(j.oplog, -1)
 }
 
 func (j *c19Job) note(op int) {
@@ -243,6 +378,7 @@ func (j *c19Job) Describe(i int) map[string]interface{} {
 func (j *c19Job) check(c *run.Ctx, hist []int, s *c19State, op int) bool {
 	out, ref := c19Apply(s, op)
 	j.note(op)
+	j.oplog = append(j.oplog, op)
 	c.Evals++
 	c.Transitions++
 	if ref == "-" {
@@ -263,16 +399,31 @@ func (j *c19Job) check(c *run.Ctx, hist []int, s *c19State, op int) bool {
 	if out == want {
 		return true
 	}
-	full := append(append(append([]int{}, j.prelude...), hist...), op)
+	sig := "history-dependent:" + c19OpString(op)
+	if j.reported == nil {
+		j.reported = map[string]int{}
+	}
+	j.reported[sig]++
+	j.reported["*"]++
+	if j.reported[sig] > 1 || j.reported["*"] > 5 {
+		// minimisation runs fresh processes: a few replayable witnesses per worker are enough
+		c.Add("violations_seen", 1)
+		return false
+	}
+	seq := j.minimise(want)
 	var hs []string
-	for _, h := range full {
-		hs = append(hs, c19OpString(h))
+	for _, h := range seq {
+		if h < 0 {
+			hs = append(hs, "|")
+		} else {
+			hs = append(hs, c19OpString(h))
+		}
 	}
 	c.Violate(run.Violation{
-		Sig:    "history-dependent:" + c19OpString(op),
-		Detail: fmt.Sprintf("after [%s] (the first %d operations belong to the preceding histories of this process) the last operation gave %q; performed first in a fresh process it gives %q", strings.Join(hs[:len(hs)-1], "; "), len(j.prelude), out, want),
-		Size:   len(hist)*1000 + op,
-		Case:   map[string]interface{}{"history": full, "readable": hs, "prelude": len(j.prelude)},
+		Sig:    sig,
+		Detail: fmt.Sprintf("after [%s] ('|' = new history: fresh Config objects) the last operation gave %q; performed first in a fresh process it gives %q", strings.Join(hs[:len(hs)-1], "; "), out, want),
+		Size:   len(seq)*1000 + op,
+		Case:   map[string]interface{}{"log": seq, "readable": hs, "expected": want},
 	})
 	return false
 }
@@ -426,8 +577,8 @@ func (j *c19Job) explicitState(c *run.Ctx) {
 	seen := map[uint64]bool{globalHash(): true}
 	frontier := []node{{nil}}
 	states, transitions, irreproducible := 1, 0, 0
-	const maxStates = 400
-	for len(frontier) > 0 && states < maxStates {
+	const maxStates = 64
+	for len(frontier) > 0 && states < maxStates && j.reported["*"] == 0 {
 		cur := frontier[0]
 		frontier = frontier[1:]
 		for op := 0; op < n; op++ {
@@ -459,6 +610,7 @@ func (j *c19Job) explicitState(c *run.Ctx) {
 
 func init() {
 	run.Commands["-c19ref"] = C19RefMain
+	run.Commands["-c19try"] = C19TryMain
 	run.Register(&run.Check{
 		ID:    "C19",
 		Level: "model_checking",
@@ -468,44 +620,23 @@ func init() {
 			"the state hash covers every package-level variable (reflectively, unexported fields included; function values as nil/non-nil) and the pool contents; state hidden in closures of the generated matcher is outside the hash - part (i) does not depend on the hash",
 		},
 		Bounds: map[string]string{
-			"quick":    "operations: Parse of 15 paths (plain, filter function, aggregate, functions inside filters, nested parameters, and one failing at each action: bad integer, bad float, bad regex, bad string, unknown function after a known one, script, value-group comparison, two @ operands, trailing garbage) x 7 configs (none, {f}, {g}, {f'}, accessor, all, shared object), 'rebind f in the shared Config', 're-call an earlier function'; all histories of length <=2 and length 3 with a reduced third alphabet; BFS to fixpoint",
+			"quick":    "operations: Parse of 19 paths (plain, filter function, aggregate, functions inside filters, nested parameters, and one failing at each action: bad integer, bad float, bad regex, bad string, unknown function after a known one, script, value-group comparison, two @ operands, trailing garbage) x 7 configs (none, {f}, {g}, {f'}, accessor, all, shared object), 'rebind f in the shared Config', 're-call an earlier function'; all histories of length <=2 and length 3 with a reduced third alphabet; BFS to fixpoint",
 			"thorough": "all histories of length <=3 over the full alphabet and length 4 with the reduced last alphabet; BFS to fixpoint",
 		},
 		New: newC19,
 		Replay: func(cs map[string]interface{}) (bool, string) {
 			sched.Install()
-			refs, err := c19References()
-			if err != nil {
-				return false, err.Error()
-			}
-			var hist []int
-			if l, ok := cs["history"].([]interface{}); ok {
+			var seq []int
+			if l, ok := cs["log"].([]interface{}); ok {
 				for _, x := range l {
 					var n int
 					fmt.Sscan(fmt.Sprint(x), &n)
-					hist = append(hist, n)
+					seq = append(seq, n)
 				}
 			}
-			prelude := 0
-			fmt.Sscan(fmt.Sprint(cs["prelude"]), &prelude)
-			s := newC19State()
-			for k, op := range hist {
-				if k == prelude {
-					s = newC19State() // the recorded history proper starts here
-				}
-				out, ref := c19Apply(s, op)
-				if ref == "-" || k < prelude {
-					continue
-				}
-				want := refs[ref]
-				if strings.HasPrefix(ref, "stored:") {
-					want = "ok " + strings.TrimPrefix(ref, "stored:")
-				}
-				if out != want {
-					return true, fmt.Sprintf("%s gave %q, fresh process gives %q", c19OpString(op), out, want)
-				}
-			}
-			return false, "history reproduces the reference outcomes"
+			want, _ := cs["expected"].(string)
+			got := c19Replay(seq)
+			return got != want, fmt.Sprintf("the last operation gave %q, performed first in a fresh process it gives %q", got, want)
 		},
 	})
 }
